@@ -102,10 +102,90 @@ class FnUnits:
         self.uf = UF()
         self.sinks = []     # (kind, node, site, what)
         self.ascii_strs = set()
+        self.is_closure = "{closure" in fn.q.rsplit("::", 1)[-1]
+        self._build_aliases()
         self.build()
 
     def n(self, op):
+        if op["k"] in ("copy", "move") and op["p"]:
+            a = self._alias_node(op)
+            if a is not None and is_int_ty(self.body.ty(op["t"])):
+                return a
         return node_of(self.body, op)
+
+    def pn(self, place):
+        """node of an integer place that is assigned to"""
+        a = self._alias_node(place)
+        return a if a is not None else ("p", pk(place))
+
+    def _upvar_index(self, place):
+        """i when the place is upvar i of this closure body (`_1.i` / `(*_1).i`), else None"""
+        if not self.is_closure or place["l"] != 1:
+            return None
+        pr = [x for x in place["p"]]
+        if pr and pr[0] == "*":
+            pr = pr[1:]
+        if len(pr) >= 1 and pr[0] != "*" and pr[0]["k"] == "f":
+            return pr[0]["i"], pr[1:]
+        return None
+
+    def _alias_node(self, place):
+        """node an integer place stands for when it is reached through a reference: `(*r)` with r = &x is x itself;
+        upvar i of a closure (by value or through its reference) is ('up', i)"""
+        pr = place["p"]
+        if not pr:
+            return None
+        up = self._upvar_index(place)
+        if up is not None:
+            i, rest = up
+            if rest in ([], ["*"]):
+                return ("up", i)
+            return None
+        if pr == ["*"] and place["l"] in self.alias:
+            return self.alias[place["l"]]
+        return None
+
+    def _build_aliases(self):
+        body = self.body
+        self.alias = {}
+        for _ in range(4):
+            changed = False
+            for bb, si, st in body.assigns():
+                if st["p"]["p"]:
+                    continue
+                d = st["p"]["l"]
+                if d in self.alias:
+                    continue
+                rv = st["rv"]
+                a = None
+                if rv["k"] == "ref":
+                    P = rv["p"]
+                    if not P["p"] or all(x != "*" for x in P["p"]):
+                        # &x / &x.f of integer type
+                        dt = body.local_ty(d)
+                        if dt["k"] == "ref" and "t" in P and is_int_ty(body.ty(P["t"])):
+                            a = self._alias_node(P) or ("p", pk(P))
+                    elif P["p"] == ["*"] and P["l"] in self.alias:
+                        a = self.alias[P["l"]]
+                    else:
+                        up = self._upvar_index(P)
+                        if up is not None and up[1] == ["*"] and "t" in P and is_int_ty(body.ty(P["t"])):
+                            a = ("up", up[0])
+                elif rv["k"] == "use" and rv["x"]["k"] in ("copy", "move"):
+                    x = rv["x"]
+                    if not x["p"] and x["l"] in self.alias:
+                        a = self.alias[x["l"]]
+                    else:
+                        up = self._upvar_index(x)
+                        if up is not None and up[1] == []:
+                            t = body.ty(x["t"])
+                            if t["k"] == "ref":
+                                a = ("up", up[0])
+                if a is not None:
+                    self.alias[d] = a
+                    changed = True
+            if not changed:
+                break
 
     def build(self):
         body = self.body
@@ -114,7 +194,7 @@ class FnUnits:
         for bb, si, s in body.assigns():
             rv = s["rv"]
             dst_t = body.ty(s["p"]["t"])
-            dn = ("p", pk(s["p"])) if is_int_ty(dst_t) else None
+            dn = self.pn(s["p"]) if is_int_ty(dst_t) else None
             k = rv["k"]
             site = body.span(s["sp"])
             if k == "use":
@@ -152,9 +232,12 @@ class FnUnits:
                             if x and base in ("Div", "Rem", "Shr"):
                                 self.sinks.append(("derive-trunc", (res, x), site, base))
             elif k == "agg":
-                if rv["ak"] == "adt" and rv["adt"] in RANGE_ADTS:
-                    # remembered for Index sinks
-                    pass
+                if rv["ak"] == "tuple" and not s["p"]["p"]:
+                    # (a, b): the fields of the tuple are the operands
+                    for i, x in enumerate(rv["xs"]):
+                        xn = self.n(x)
+                        if xn:
+                            uf.union(("p", "%s.%d" % (pk(s["p"]), i)), xn)
         for bb, t in body.calls():
             name = callee_name(t) or ""
             decl = t["f"].get("d", "") if t["f"]["k"] == "def" else ""
@@ -359,6 +442,58 @@ def link_closures(F, fus):
     return fus
 
 
+def link_upvars(F, fus):
+    """Labels flow between an integer local captured by a closure (by value or by reference) and the closure body's upvar."""
+    by_q = {fu.fn.q: fu for fu in fus}
+    for _ in range(4):
+        changed = False
+        for fu in list(fus):
+            body = fu.body
+            for bb, si, st in body.assigns():
+                rv = st["rv"]
+                if rv["k"] != "agg" or rv["ak"] != "closure":
+                    continue
+                pairs = []
+                for i, x in enumerate(rv["xs"]):
+                    if x["k"] not in ("copy", "move"):
+                        continue
+                    nd = None
+                    t = body.ty(x["t"])
+                    if is_int_ty(t):
+                        nd = fu.n(x)
+                    elif t["k"] == "ref" and not x["p"] and x["l"] in fu.alias:
+                        nd = fu.alias[x["l"]]
+                    if nd is not None:
+                        pairs.append((i, nd))
+                if not pairs:
+                    continue
+                tgt = by_q.get(rv["d"])
+                if tgt is None:
+                    g = F.fn_opt(rv["d"])
+                    if g is None or g.body is None:
+                        continue
+                    tgt = FnUnits(F, g)
+                    by_q[rv["d"]] = tgt
+                    fus.append(tgt)
+                for i, nd in pairs:
+                    un = ("up", i)
+                    for a, an, b, bn in ((fu, nd, tgt, un), (tgt, un, fu, nd)):
+                        for lab in a.uf.labs(an) & {"Bytes", "Chars", "User"}:
+                            if lab not in b.uf.labs(bn):
+                                why = [w[1] for w in a.uf.reasons(an) if w[0] == lab][:1]
+                                b.uf.label(bn, lab, "captured variable: %s" % (why[0] if why else "?"))
+                                changed = True
+        if not changed:
+            break
+    for fu in fus:
+        for kind, node, site, what in fu.sinks:
+            if kind == "derive-trunc":
+                res, x = node
+                if ("Bytes" in fu.uf.labs(x) or "Trunc" in fu.uf.labs(x)) and "Trunc" not in fu.uf.labs(res):
+                    fu.uf.label(res, "Trunc", "%s of a byte quantity at %s" % (what, site))
+    return fus
+
+
 def _ret_int_nodes(fu):
     """nodes of the integer operands that make up the callee's return value (through tuple / Ok / Some wrappers)"""
     body = fu.body
@@ -474,7 +609,7 @@ _CACHE = {}
 
 def get(F):
     if id(F) not in _CACHE:
-        _CACHE[id(F)] = link_calls(F, link_closures(F, analyse(F)))
+        _CACHE[id(F)] = link_upvars(F, link_calls(F, link_upvars(F, link_closures(F, analyse(F)))))
     return _CACHE[id(F)]
 
 
